@@ -232,7 +232,7 @@ struct Codec<smooth::SubManifold<T>>
 
 // AnyManifold over a fixed list of four wrapped types
 using AnyT0 = smooth::SO3d;
-using AnyT1 = smooth::SE2d;
+using AnyT1 = smooth::SO2d;
 using AnyT2 = Eigen::VectorXd;
 using AnyT3 = std::vector<smooth::SO3d>;
 struct AnyBox  // the harness remembers which type it wrapped
@@ -542,25 +542,150 @@ void emit(FILE * f, const std::string & op, const std::string & grp, const std::
 }
 
 // ------------------------------------------------------------------ generators
+// tangent strata: magnitude classes, plus two that are about the ROTATION coordinates:
+//   near_pi  every rotation block of the tangent has norm pi - u, u in [0.05, 0.3]
+//   wide     every rotation block has norm in [1.6, 3.0]
+// Elements are products of two exponentials of such tangents, so rotation angles cover the whole
+// circle and pairs (m, rplus(m, a)), (m, m2) straddle the +-pi branch cut of log.
+constexpr int N_STRATA = 7;
 static const char * scale_name(int k)
 {
-  static const char * n[] = {"zero", "tiny", "small", "generic", "large"};
-  return n[k % 5];
+  static const char * n[] = {"zero", "tiny", "small", "generic", "large", "near_pi", "wide"};
+  return n[((k % N_STRATA) + N_STRATA) % N_STRATA];
 }
 inline double scale_of(int k)
 {
-  static const double s[] = {0.0, 1e-8, 1e-3, 0.5, 1.0};
-  return s[k % 5];
+  static const double s[] = {0.0, 1e-8, 1e-3, 0.5, 1.0, 1.0, 1.0};
+  return s[((k % N_STRATA) + N_STRATA) % N_STRATA];
+}
+
+// rotation blocks of the tangent of a value: lists of tangent indices that form one rotation vector
+using Blocks = std::vector<std::vector<int>>;
+template<class M>
+struct Rot
+{
+  static void get(const M &, int, Blocks &) {}
+};
+template<class S> struct Rot<smooth::SO2<S>> { static void get(const smooth::SO2<S> &, int o, Blocks & b) { b.push_back({o}); } };
+template<class S> struct Rot<smooth::C1<S>> { static void get(const smooth::C1<S> &, int o, Blocks & b) { b.push_back({o + 1}); } };
+template<class S> struct Rot<smooth::SO3<S>> { static void get(const smooth::SO3<S> &, int o, Blocks & b) { b.push_back({o, o + 1, o + 2}); } };
+template<class S> struct Rot<smooth::SE2<S>> { static void get(const smooth::SE2<S> &, int o, Blocks & b) { b.push_back({o + 2}); } };
+template<class S> struct Rot<smooth::SE3<S>> { static void get(const smooth::SE3<S> &, int o, Blocks & b) { b.push_back({o + 3, o + 4, o + 5}); } };
+template<class S> struct Rot<smooth::Galilei<S>> { static void get(const smooth::Galilei<S> &, int o, Blocks & b) { b.push_back({o + 7, o + 8, o + 9}); } };
+template<class S, int K>
+struct Rot<smooth::SE_K_3<S, K>>
+{
+  static void get(const smooth::SE_K_3<S, K> &, int o, Blocks & b) { b.push_back({o + 3 * K, o + 3 * K + 1, o + 3 * K + 2}); }
+};
+template<class... Gs>
+struct Rot<smooth::Bundle<Gs...>>
+{
+  static void get(const smooth::Bundle<Gs...> &, int o, Blocks & b)
+  {
+    // parts of a Bundle have static sizes: their rotation coordinates do not depend on the value
+    (
+      [&] {
+        Rot<Gs>::get(Gs{}, o, b);
+        o += int(smooth::traits::man<Gs>::Dof);
+      }(),
+      ...);
+  }
+};
+template<class E>
+struct Rot<std::vector<E>>
+{
+  static void get(const std::vector<E> & m, int o, Blocks & b)
+  {
+    for (const auto & e : m) {
+      Rot<E>::get(e, o, b);
+      o += int(smooth::dof(e));
+    }
+  }
+};
+template<class A, class B, class C>
+struct Rot<std::variant<A, B, C>>
+{
+  static void get(const std::variant<A, B, C> & m, int o, Blocks & b)
+  {
+    std::visit([&]<class T>(const T & v) { Rot<T>::get(v, o, b); }, m);
+  }
+};
+template<class T>
+struct Rot<smooth::SubManifold<T>>
+{
+  static void get(const smooth::SubManifold<T> & m, int o, Blocks & b)
+  {
+    Blocks full;
+    Rot<T>::get(m.m0(), 0, full);
+    // full index -> reduced index (fixed dims drop out)
+    const int d = int(smooth::dof(m.m0()));
+    std::vector<int> red(d, -1);
+    for (int i = 0, j = 0, k = 0; i < d; ++i) {
+      if (k < m.fixed_dims().size() && m.fixed_dims()(k) == i) ++k;
+      else red[i] = j++;
+    }
+    for (auto & blk : full) {
+      std::vector<int> r;
+      for (int i : blk)
+        if (red[i] >= 0) r.push_back(o + red[i]);
+      if (!r.empty()) b.push_back(r);
+    }
+  }
+};
+
+template<class S>
+void shape_rotations(Rng & r, Eigen::VectorX<S> & a, const Blocks & blocks, int k)
+{
+  const int st = ((k % N_STRATA) + N_STRATA) % N_STRATA;
+  if (st < 5) return;
+  for (const auto & blk : blocks) {
+    double nrm = 0;
+    for (int i : blk) nrm += double(a(i)) * double(a(i));
+    nrm = std::sqrt(nrm);
+    if (nrm < 1e-3) {
+      a(blk[0]) = S(r.sign());
+      nrm       = 1;
+      for (size_t q = 1; q < blk.size(); ++q) a(blk[q]) = 0;
+    }
+    const double target = st == 5 ? M_PI - r.uni(0.05, 0.3) : r.uni(1.6, 3.0);
+    for (int i : blk) a(i) = S(double(a(i)) * target / nrm);
+  }
 }
 
 template<class S>
-Eigen::VectorX<S> rand_tangent(Rng & r, Eigen::Index n, int k)
+Eigen::VectorX<S> rand_tangent(Rng & r, Eigen::Index n, int k, const Blocks & blocks = {})
 {
-  // entries within [-1.5, 1.5]·scale: every rotation 3-vector has norm < 2.6 < pi
+  // entries within [-1.5, 1.5]*scale: every rotation 3-vector has norm < 2.6 < pi; the rotation
+  // strata then rescale the rotation blocks
   Eigen::VectorX<S> a(n);
   for (Eigen::Index i = 0; i < n; ++i) a(i) = S(r.uni(-1.5, 1.5) * scale_of(k));
-  if (k % 5 >= 3 && n > 0 && r.below(4) == 0) a(r.below(int(n))) = 0;
+  if (((k % N_STRATA) + N_STRATA) % N_STRATA >= 3 && n > 0 && r.below(4) == 0) a(r.below(int(n))) = 0;
+  shape_rotations(r, a, blocks, k);
   return a;
+}
+
+// forward: uniform access used by tangent_for
+template<class M> struct Ops;
+
+// a tangent at the value m, aware of where m's rotation coordinates are
+template<class M>
+auto tangent_for(Rng & r, const M & m, int k);
+
+template<>
+struct Rot<AnyBox>
+{
+  static void get(const AnyBox & m, int o, Blocks & b)
+  {
+    any_visit(m.idx, [&]<class T>(std::type_identity<T>) { Rot<T>::get(m.any.template get<T>(), o, b); });
+  }
+};
+template<class M>
+auto tangent_for(Rng & r, const M & m, int k)
+{
+  using S = typename Ops<M>::S;
+  Blocks b;
+  Rot<M>::get(m, 0, b);
+  return rand_tangent<S>(r, Ops<M>::dof(m), k, b);
 }
 
 template<class M>
@@ -584,8 +709,9 @@ struct Gen<G>
       for (Eigen::Index i = 0; i < sz; ++i) g(i) = S(gen_trans(r, k + int(i)));
       return g;
     } else {
-      G g = smooth::traits::lie<G>::exp(rand_tangent<S>(r, G::Dof, k));
-      if (k % 7 == 3) g = g * smooth::traits::lie<G>::exp(rand_tangent<S>(r, G::Dof, k + 1));
+      const G id = smooth::traits::lie<G>::Identity(G::Dof);
+      G g        = smooth::traits::lie<G>::exp(tangent_for(r, id, k));
+      if (k % 3 != 0) g = g * smooth::traits::lie<G>::exp(tangent_for(r, id, 3 * k + 1));
       if (k % 11 == 5) g = g.inverse();
       return g;
     }
@@ -623,7 +749,7 @@ struct Gen<smooth::SubManifold<T>>
     using S    = smooth::Scalar<T>;
     const T m0 = Gen<T>::make(r, k, n);
     const int d = int(smooth::dof(m0));
-    const T m  = smooth::rplus(m0, rand_tangent<S>(r, d, k + 2));
+    const T m  = smooth::rplus(m0, tangent_for(r, m0, k + 2));
     std::vector<int> fd;
     const unsigned mask = unsigned(k * 5 + n) % (1u << d);
     for (int b = d - 1; b >= 0; --b)
@@ -677,7 +803,7 @@ struct Emit
   // the standard battery on (m, a, m2)
   void battery(const M & m, const M & m2, int k, const char * tag)
   {
-    const V a = rand_tangent<S>(r, Ops<M>::dof(m), k);
+    const V a = tangent_for(r, m, k);
     go("man_dof", enc(m), tag);
     go("man_rplus", cat(enc(m), lst(a)), tag);
     go("man_rminus", cat(enc(m), enc(m2)), tag);
@@ -700,9 +826,9 @@ void run_plain(FILE * f, Rng & r, int n)
     M m2 = Gen<M>::make(r, i + 3, sz);
     if constexpr (is_vec<M>::value) {
       // dynamic element sizes must agree elementwise: regenerate from m by a random tangent
-      m2 = Ops<M>::rplus(m, rand_tangent<S>(r, Ops<M>::dof(m), i + 3));
+      m2 = Ops<M>::rplus(m, tangent_for(r, m, i + 3));
     } else if (Ops<M>::dof(m2) != Ops<M>::dof(m)) {
-      m2 = Ops<M>::rplus(m, rand_tangent<S>(r, Ops<M>::dof(m), i + 3));
+      m2 = Ops<M>::rplus(m, tangent_for(r, m, i + 3));
     }
     e.battery(m, m2, i, scale_name(i));
   }
@@ -764,7 +890,7 @@ void run_sub(FILE * f, Rng & r, int reps, int nlo, int nhi)
         std::vector<int> sh = fd;
         for (int q = int(sh.size()) - 1; q > 0; --q) std::swap(sh[q], sh[r.below(q + 1)]);
         const T m0 = Gen<T>::make(r, cnt, nn);
-        const T m  = smooth::rplus(m0, rand_tangent<S>(r, d, cnt + 2));
+        const T m  = smooth::rplus(m0, tangent_for(r, m0, cnt + 2));
         Eigen::VectorXi fdv(int(sh.size()));
         for (size_t q = 0; q < sh.size(); ++q) fdv(int(q)) = sh[q];
         const std::string tag = "fixed=" + std::to_string(mask) + "/" + std::to_string(d);
@@ -776,9 +902,9 @@ void run_sub(FILE * f, Rng & r, int reps, int nlo, int nhi)
         }
         const M s(m0, m, fdv);
         // m2: same origin and fixed dims, moved along free directions
-        const M s2 = smooth::rplus(s, rand_tangent<S>(r, smooth::dof(s), cnt + 1));
+        const M s2 = smooth::rplus(s, tangent_for(r, s, cnt + 1));
         e.battery(s, s2, cnt, tag.c_str());
-        e.go("aud_sub", Emit<M>::cat(enc(s), Emit<M>::lst(rand_tangent<S>(r, smooth::dof(s), cnt))), tag.c_str());
+        e.go("aud_sub", Emit<M>::cat(enc(s), Emit<M>::lst(V(tangent_for(r, s, cnt)))), tag.c_str());
       }
     }
   }
@@ -791,7 +917,7 @@ void run_any(FILE * f, Rng & r, int n)
   Emit<M> e{f, r};
   for (int i = 0; i < n; ++i) {
     const M m  = Gen<M>::make(r, i, i);
-    const M m2 = Ops<M>::rplus(m, rand_tangent<double>(r, Ops<M>::dof(m), i + 3));
+    const M m2 = Ops<M>::rplus(m, tangent_for(r, m, i + 3));
     e.battery(m, m2, i, scale_name(i));
   }
   std::vector<double> x{3.0};
@@ -825,6 +951,8 @@ void catalogue(V && visit)
   visit.template plain<SE_K_3<double, 2>>();
   visit.template plain<Bundle<SO3d, V3>>();
   visit.template plain<Bundle<SE2d, SO2d, V2>>();
+  visit.template plain<Bundle<SO2d, V2>>();   // all-commutative Bundles
+  visit.template plain<Bundle<C1d, SO2d>>();
   visit.template plain<Eigen::Matrix<double, 1, 1>>();
   visit.template plain<V3>();
   visit.template plain<Eigen::Matrix<double, 6, 1>>();
@@ -842,6 +970,10 @@ void catalogue(V && visit)
   visit.template vec<Bundle<SO3d, V3>>();
   visit.template vec<std::vector<SO3d>>();
   visit.template vec<SO3f>();
+  visit.template vec<SO2d>();
+  visit.template vec<Bundle<C1d, SO2d>>();
+  visit.template plain<std::variant<SO2d, C1d, Eigen::VectorXd>>();
+  visit.template variant_mismatch<std::variant<SO2d, C1d, Eigen::VectorXd>>();
   visit.template plain<std::variant<SO3d, SE2d, Eigen::VectorXd>>();
   visit.template variant_mismatch<std::variant<SO3d, SE2d, Eigen::VectorXd>>();
   visit.template vec<std::variant<SO3d, SE2d, Eigen::VectorXd>>();
@@ -851,6 +983,8 @@ void catalogue(V && visit)
   visit.template sub<Eigen::VectorXd>(0, 6);
   visit.template sub<Bundle<SO3d, V2>>(3, 3);
   visit.template sub<SO3f>(3, 3);
+  visit.template sub<SO2d>(3, 3);
+  visit.template sub<Bundle<SO2d, V2>>(3, 3);   // SubManifold over an all-commutative Bundle
   visit.template vec<SubManifold<SO3d>>();
   visit.any();
 #endif
